@@ -112,7 +112,7 @@ class NetWorld(World):
                 "vertical_exact": r.choice([0, 0, 0.02]), "subnet": r.choice([0, 0.03, 0.1]),
                 "int_ids": (not road) and r.random() < 0.3,
                 "reweigh": r.choice([0, 0.05, 0.15]), "routing": r.choice([0, 0, 0.04, 0.1]),
-                "empty_id": r.random() < 0.15, "travel_time": r.random() < 0.3, "dense": r.random() < 0.08,
+                "empty_id": r.random() < 0.15, "travel_time": r.random() < 0.3, "dense": r.random() < 0.08, "np_types": r.random() < 0.1,
                 "tiny_w": (not road) and (not hub) and r.random() < 0.12,
                 "tmode": r.choice(["inc", "inc", "rev", "same"]), "persist": r.choice([0, 0, 0.05, 0.12]),
                 "rescale": r.choice([0, 0.05, 0.15]),
@@ -668,7 +668,7 @@ class NetWorld(World):
         e = Edge(st["id"], geom)
         e.orientation = st["o"]
         w = st["w"] if st["w"] is not None else geom.length() * st.get("wf", 1.0)
-        e.weight = w
+        e.weight = self._np(w)
         na, nb = Node(a, ENUCoords(pa[0], pa[1], 0)), Node(b, ENUCoords(pb[0], pb[1], 0))
         if a == b and len(pts) % 2 == 0:
             nb = na                    # a loop declared with one and the same Node object for both ends
@@ -730,9 +730,11 @@ class NetWorld(World):
         elif st.get("as_node"):
             rv, exc = self.call(net.shortest_distance, net.getNode(a), net.getNode(b))
         else:
-            rv, exc = self.call(net.shortest_distance, a, b)
+            rv, exc = self.call(net.shortest_distance, self._np(a), self._np(b))
         if exc is not None:
             return self._unexpected("C06", exc, "shortest_distance(%s, %s)" % (a, b))
+        if hasattr(rv, "item"):
+            rv = rv.item()          # a numpy scalar is a number like any other
         self.observed(rv)
         if exp == INF:
             self.probe("target_unreachable")
@@ -743,6 +745,19 @@ class NetWorld(World):
             self.fail("C06", "distance.value", "shortest_distance(%s, %s)" % (a, b), exp, rv, exact=m["exact"])
         else:
             self._probe_route(m, a, b)
+
+    def _np(self, v):
+        """In some runs integer identifiers are handed over as numpy integers (what an index read
+        from an array is) and weights are numpy floats."""
+        if self.cfg.get("np_types"):
+            import numpy
+            if isinstance(v, bool):
+                return v
+            if isinstance(v, int):
+                return numpy.int64(v)
+            if isinstance(v, float):
+                return numpy.float64(v)
+        return v
 
     def _probe_route(self, m, a, b):
         d = self._fw(m)
@@ -923,7 +938,7 @@ class NetWorld(World):
         elif rec is not None:
             rv, exc = self.call(net.shortest_path, a, b, 1e300, rec)
         else:
-            rv, exc = self.call(net.shortest_path, a, b)
+            rv, exc = self.call(net.shortest_path, self._np(a), self._np(b))
         if exc is not None:
             return self._unexpected("C07", exc, "shortest_path(%s, %s)" % (a, b))
         if rec:
